@@ -510,7 +510,19 @@ pub fn run_and_verify(
     keep_trace: bool,
     breaks: &[u16],
 ) -> Checked {
-    let script = lines.join(sep);
+    // "mix": `;` and newline alternate irregularly inside one script
+    let script = if sep == "mix" {
+        let mut s = String::new();
+        for (k, l) in lines.iter().enumerate() {
+            if k > 0 {
+                s.push(if crate::util::mix64(case ^ (k as u64 * 0x9E37)) % 3 == 0 { ';' } else { '\n' });
+            }
+            s.push_str(l);
+        }
+        s
+    } else {
+        lines.join(sep)
+    };
     let sess = match run_session(text, stack, &script, input, TICK_FUEL, keep_trace) {
         Ok(s) => s,
         Err(o) => {
